@@ -37,6 +37,19 @@ def judge(res, code, cfg, feats, r):
         res.nontriv(common.sha(code.hex() + json.dumps(cfg, sort_keys=True)))
     for f in feats:
         res.count("feat:" + f)
+    # freshness of replacements: every culling event (hook) must introduce an identity no earlier event introduced
+    mon = r.get("mon") or {}
+    res.count("culling_events", mon.get("culled", 0))
+    if mon.get("culled_dups"):
+        idv, ip1, ip2 = mon["culled_dups"][0]
+        res.violation("c18:culled-value-not-fresh:%s" % ("same-ip" if ip1 == ip2 else "different-ip"),
+                      "two over-large results (built at %d and at %d) were replaced by the same opaque value %s (%d such "
+                      "repeats)" % (ip1, ip2, idv, len(mon["culled_dups"])), case)
+        return
+    if mon.get("culled_under"):
+        ip, nodes, limit = mon["culled_under"][0]
+        res.violation("c18:culled-below-limit", "a %d-node result at %d was replaced although the limit is %d" % (nodes, ip, limit), case)
+        return
     for where, key in (("value", "mismatches"), ("after-fold", "fold_mismatches"), ("after-lift", "lift_mismatches")):
         if sz[key]:
             m = sz[key][0]
